@@ -501,3 +501,58 @@ WORLDS.append(b.world([
     e("m.D.formula = lambda k: {'base': _model.B1, 'refs': {'h': (lambda: 9)}}", "space-formula-set", "other-base"),
     e("m.P.formula = lambda i, j=0: None", "space-formula-set", "parameters"),
 ]))
+
+# ------------------------------------------------------------------------------------------------------------
+# W11  the cached flag of a cells is switched on / off (Cells.is_cached = ...; mx.defcells(..., is_cached=...) on
+#      the existing cells): callees that read a reference by name (u, c) and by attribute path (ua, ca), two of
+#      them uncached to begin with, called from cached cells of the same space, of other spaces (by attribute
+#      path from the model, through a reference bound to the space) and through an uncached cells of another
+#      space; interleaved with changes of the references read, a formula change and value assignment / clearing.
+b = B("cached-flag")
+b.add("m.x = 1", "S = m.new_space('S')", "S.x = 3", "Ch = S.new_space('Ch')", "Ch.y = 4",
+      "T = m.new_space('T')", "T.s = S",
+      cells("S", "u", "x + 10", cached=False, style="def"), cells("S", "ua", "Ch.y + 20", cached=False),
+      cells("S", "c", "x + 30"), cells("S", "ca", "_space.Ch.y + 40", style="def"),
+      cells("S", "ku", "u() + 100"), cells("S", "kua", "ua() + 200", style="def"),
+      cells("S", "kc", "c() + 300", style="def"), cells("S", "kca", "ca() + 400"),
+      cells("T", "tu", "s.u() + 500"), cells("T", "tc", "s.c() + 700", style="def"), cells("T", "tca", "s.ca() + 800"))
+b.late += [cells("Z", "zu", "_model.S.u() + 550", style="def"), cells("Z", "zua", "_model.S.ua() + 600"),
+           cells("Z", "zc", "_model.S.c() + 750"),
+           cells("Z", "w", "_model.S.u() + 1000", cached=False), cells("Z", "wc", "w() + 1")]
+SAME, OTHER = "caller:same-space", "caller:other-space"
+b.q("m.S.u()", "name-space-ref", "flag-flipped-cells", unc=("S.u",))
+b.q("m.S.ua()", "attr-child-ref", "flag-flipped-cells", unc=("S.ua",))
+b.q("m.S.c()", "name-space-ref", "flag-flipped-cells", unc=("S.c",))
+b.q("m.S.ca()", "attr-child-ref", "flag-flipped-cells", unc=("S.ca",))
+b.q("m.S.ku()", "name-space-ref", "via:cached-callee", SAME, unc=("S.u",))
+b.q("m.S.kua()", "attr-child-ref", "via:cached-callee", SAME, unc=("S.ua",))
+b.q("m.S.kc()", "name-space-ref", "via:cached-callee", SAME, unc=("S.c",))
+b.q("m.S.kca()", "attr-child-ref", "via:cached-callee", SAME, unc=("S.ca",))
+b.q("m.T.tu()", "name-space-ref", "via:cached-callee", "via:ref-to-space", OTHER, unc=("S.u",))
+b.q("m.T.tc()", "name-space-ref", "via:cached-callee", "via:ref-to-space", OTHER, unc=("S.c",))
+b.q("m.T.tca()", "attr-child-ref", "via:cached-callee", "via:ref-to-space", OTHER, unc=("S.ca",))
+b.q("m.Z.zu()", "name-space-ref", "via:cached-callee", "via:attr-cells", OTHER, unc=("S.u",))
+b.q("m.Z.zua()", "attr-child-ref", "via:cached-callee", "via:attr-cells", OTHER, unc=("S.ua",))
+b.q("m.Z.zc()", "name-space-ref", "via:cached-callee", "via:attr-cells", OTHER, unc=("S.c",))
+b.q("m.Z.wc()", "name-space-ref", "via:cached-callee", "via:attr-cells", "via:uncached-caller-in-other-space", OTHER,
+    unc=("S.u", "Z.w"))
+WORLDS.append(b.world([
+    e("m.S.u.is_cached = True", "cached-flag-on", "reads-by-name"),
+    e("m.S.u.is_cached = False", "cached-flag-off", "reads-by-name"),
+    e("m.S.ua.is_cached = True", "cached-flag-on", "reads-by-attr-path"),
+    e("m.S.ua.is_cached = False", "cached-flag-off", "reads-by-attr-path"),
+    e("m.S.c.is_cached = False", "cached-flag-off", "reads-by-name"),
+    e("m.S.c.is_cached = True", "cached-flag-on", "reads-by-name"),
+    e("m.S.ca.is_cached = False", "cached-flag-off", "reads-by-attr-path"),
+    e("m.S.ca.is_cached = True", "cached-flag-on", "reads-by-attr-path"),
+    e("m.Z.w.is_cached = True", "cached-flag-on", "caller-in-other-space"),
+    e("mx.defcells(space=m.S, name='ua', is_cached=True)(m.S.ua.formula.func)", "cached-flag-on",
+      "reads-by-attr-path", "by-defcells"),
+    sref("m.S", "x", 5),
+    sdel("m.S", "x"),
+    sref("m.S.Ch", "y", 6, "in-child-space"),
+    mref("x", 7, "same-name-as-space-ref"),
+    e("m.S.u.formula = 'lambda: x + 11'", "formula-set"),
+    e("m.S.c = 99", "value-assign"),
+    e("m.S.c.clear_all()", "value-clear"),
+]))
